@@ -423,6 +423,9 @@ func genFilterArgs(r *Rng, small bool) []string {
 	if r.Intn(3) == 0 {
 		nh = r.Pick(0, 1, 2, 5, 11, 50)
 	}
+	if r.Intn(25) == 0 {
+		nh = r.Pick(51, 64, 200) // beyond the wire limit: LoadFilter does not validate, insertion and test must still agree
+	}
 	tw := uint32(r.U64())
 	if r.Intn(4) == 0 {
 		tw = uint32(r.Pick(0, 1, 0xffffffff, 0x045b3a6b)) // last: makes i*0xfba4c795+tweak wrap at i=1
@@ -463,7 +466,7 @@ func genC09(r *Rng, tier string, emit func(Case)) {
 			ops = append(ops, "m:"+it, "a:"+it, "m:"+it)
 		}
 		for _, fl := range []int{1, 2, 35999, 36000} {
-			for _, nh := range []int{0, 1, 50} {
+			for _, nh := range []int{0, 1, 50, 51, 200} {
 				e("hist", "special", hx(make([]byte, fl)), itoa(nh), "7", "0", strings.Join(ops, ";"))
 			}
 		}
